@@ -26,6 +26,26 @@ mut("c01-run-trigger-before-panic", ["C01"], "panic-set-before-trigger",
 ben("c01-join-wait-seqcst", ["C01"],
     ("src/join.rs", "self.state.store(false, Ordering::Release);", "self.state.store(false, Ordering::SeqCst);"))
 
+# ---- F18: revert (nested run while the wait_kernel guard is held)
+mut("f18-revert-nested-run-under-guard", ["C01", "C02"], "no-nested-run-under-guard",
+    ("src/park.rs", "                drop(g);\n                // here may have recursive call for subscribe", "                let _keep = &g;\n                // here may have recursive call for subscribe"))
+ben("f18-schedule-instead-of-nested-run", ["C01", "C02"],
+    ("src/park.rs", "                drop(g);\n                // here may have recursive call for subscribe\n                // normally the recursion depth is not too deep\n                run_coroutine(co);",
+     "                // hand it to the scheduler instead of running it on top of this frame\n                get_scheduler().schedule(co);"))
+
+# ---- C10: the fetch_update idiom of Semphore::try_wait (accepted as an alternative to the CAS loop) and its broken variants
+ben("c10-trywait-fetch-update", ["C10"], ("src/sync/semphore.rs", '        let mut cnt = self.cnt.load(Ordering::SeqCst);\n        while cnt > 0 {\n            match self\n                .cnt\n                .compare_exchange(cnt, cnt - 1, Ordering::SeqCst, Ordering::SeqCst)\n            {\n                Ok(_) => return true,\n                Err(x) => cnt = x,\n            }\n        }\n        false', '        self.cnt\n            .fetch_update(Ordering::SeqCst, Ordering::SeqCst, |cnt| {\n                if cnt > 0 {\n                    Some(cnt - 1)\n                } else {\n                    None\n                }\n            })\n            .is_ok()'))
+mut("c10-trywait-fetch-update-takes-at-zero", ["C10"], "cas-only-if-positive", ("src/sync/semphore.rs", '        let mut cnt = self.cnt.load(Ordering::SeqCst);\n        while cnt > 0 {\n            match self\n                .cnt\n                .compare_exchange(cnt, cnt - 1, Ordering::SeqCst, Ordering::SeqCst)\n            {\n                Ok(_) => return true,\n                Err(x) => cnt = x,\n            }\n        }\n        false', '        self.cnt\n            .fetch_update(Ordering::SeqCst, Ordering::SeqCst, |cnt| {\n                if cnt >= 0 {\n                    Some(cnt - 1)\n                } else {\n                    None\n                }\n            })\n            .is_ok()'))
+mut("c10-trywait-fetch-update-by-two", ["C10"], "cas-decrements-by-one", ("src/sync/semphore.rs", '        let mut cnt = self.cnt.load(Ordering::SeqCst);\n        while cnt > 0 {\n            match self\n                .cnt\n                .compare_exchange(cnt, cnt - 1, Ordering::SeqCst, Ordering::SeqCst)\n            {\n                Ok(_) => return true,\n                Err(x) => cnt = x,\n            }\n        }\n        false', '        self.cnt\n            .fetch_update(Ordering::SeqCst, Ordering::SeqCst, |cnt| {\n                if cnt > 0 {\n                    Some(cnt - 2)\n                } else {\n                    None\n                }\n            })\n            .is_ok()'))
+mut("c10-trywait-fetch-update-relaxed", ["C10"], "trywait-acquire", ("src/sync/semphore.rs", '        let mut cnt = self.cnt.load(Ordering::SeqCst);\n        while cnt > 0 {\n            match self\n                .cnt\n                .compare_exchange(cnt, cnt - 1, Ordering::SeqCst, Ordering::SeqCst)\n            {\n                Ok(_) => return true,\n                Err(x) => cnt = x,\n            }\n        }\n        false', '        self.cnt\n            .fetch_update(Ordering::Relaxed, Ordering::SeqCst, |cnt| {\n                if cnt > 0 {\n                    Some(cnt - 1)\n                } else {\n                    None\n                }\n            })\n            .is_ok()'))
+mut("c10-trywait-fetch-update-is-err", ["C10"], "true-only-on-cas-ok", ("src/sync/semphore.rs", '        let mut cnt = self.cnt.load(Ordering::SeqCst);\n        while cnt > 0 {\n            match self\n                .cnt\n                .compare_exchange(cnt, cnt - 1, Ordering::SeqCst, Ordering::SeqCst)\n            {\n                Ok(_) => return true,\n                Err(x) => cnt = x,\n            }\n        }\n        false', '        self.cnt\n            .fetch_update(Ordering::SeqCst, Ordering::SeqCst, |cnt| {\n                if cnt > 0 {\n                    Some(cnt - 1)\n                } else {\n                    None\n                }\n            })\n            .is_err()'))
+
+# ---- F19: revert (CoIo closes its fd before it leaves the selector)
+mut("f19-revert-coio-field-order", ["C17"], "drop-order/deregister-before-close",
+    ("src/io/sys/unix/co_io.rs", "    io: io_impl::IoData,\n    inner: T,\n", "    inner: T,\n    io: io_impl::IoData,\n"))
+mut("f19-tcpstream-field-order", ["C17"], "drop-order/deregister-before-close",
+    ("src/net/tcp.rs", "pub struct TcpStream {\n    _io: io_impl::IoData,\n    sys: net::TcpStream,", "pub struct TcpStream {\n    sys: net::TcpStream,\n    _io: io_impl::IoData,"))
+
 # ---- C02
 mut("c02-subscribe-check-before-store", ["C02"], "park-slot",
     ("src/park.rs", "        // register the coroutine\n        self.wait_co.store(co);\n\n        // re-check the state, only clear once after resume\n        if self.state.load(Ordering::Acquire) {",
@@ -42,7 +62,7 @@ mut("c02-cancel-take-before-flag", ["C02"], "cancel/publish-then-take",
     ("src/cancel.rs", "        self.state.fetch_or(1, Ordering::Release);\n\n        if let Some(Ok(())) = self.io.cancel() {\n            // successfully canceled\n            return;\n        }\n\n        if let Some(co) = self.co.take() {",
      "        if let Some(Ok(())) = self.io.cancel() {\n            self.state.fetch_or(1, Ordering::Release);\n            return;\n        }\n        let taken = self.co.take();\n        self.state.fetch_or(1, Ordering::Release);\n        if let Some(co) = taken {"))
 ben("c02-park-if-let-to-match", ["C02"],
-    ("src/park.rs", "        if let Some(co) = self.wait_co.take() {\n            run_coroutine(co);\n        }\n    }\n\n    /// park current", "        match self.wait_co.take() {\n            Some(co) => run_coroutine(co),\n            None => {}\n        }\n    }\n\n    /// park current"))
+    ("src/park.rs", "            if let Some(co) = self.wait_co.take() {\n                // we own the coroutine again", "            let back = self.wait_co.take();\n            if let Some(co) = back {\n                // we own the coroutine again"))
 
 # ---- C05
 mut("c05-count-before-enqueue", ["C05"], "enqueue-then-count",
